@@ -95,23 +95,27 @@ fn corpus_files() -> Vec<(String, String)> {
             out.push((p.to_string_lossy().to_string(), t));
         }
     }
-    out.push(("harness:macro-corpus".to_string(), MACRO_CORPUS.to_string()));
+    for (k, t) in MACRO_CORPUS.iter().enumerate() {
+        out.push((format!("harness:macro-corpus-{}", k), t.to_string()));
+    }
     out
 }
 
 /// the harness's own valid program: macros whose templates combine pattern variables of several
 /// ellipses (a token-level mutation makes the matched sequences unequal, empty or misnested)
-pub const MACRO_CORPUS: &str = "(define-syntax zip (syntax-rules () ((zip (a ...) (b ...)) '((a b) ...))))
-(zip (1 2 3) (4 5 6))
-(define-syntax rot (syntax-rules () ((rot (a b ...) ...) '((b ... a) ...))))
-(rot (1 2 3) (4 5 6) (7 8 9))
-(define-syntax my-let (syntax-rules () ((my-let ((n v) ...) body ...) ((lambda (n ...) body ...) v ...))))
-(my-let ((p 1) (q 2)) (list p q))
-(define-syntax two (syntax-rules (sep) ((two a ... sep b ...) (list (list a ...) (list b ...) (list (list a b) ...)))))
-(two 1 2 sep 3 4)
-(define-syntax flat (syntax-rules () ((flat (a ...) ...) '(a ... ...)) ((flat . r) 'other)))
-(flat (1 2) (3) ())
-";
+pub const MACRO_CORPUS: &[&str] = &[
+    "(define-syntax zip (syntax-rules () ((zip (a ...) (b ...)) '((a b) ...))))\n(zip (1 2 3) (4 5 6))\n",
+    "(define-syntax rot (syntax-rules () ((rot (a b ...) ...) '((b ... a) ...))))\n(rot (1 2 3) (4 5 6) (7 8 9))\n",
+    "(define-syntax my-let (syntax-rules () ((my-let ((n v) ...) body ...) ((lambda (n ...) body ...) v ...))))\n(my-let ((p 1) (q 2)) (list p q))\n",
+    "(define-syntax two (syntax-rules (sep) ((two (a ...) sep (b ...)) (list (list a ...) (list b ...) (list (list a b) ...)))))\n(two (1 2) sep (3 4))\n",
+    "(define-syntax flat (syntax-rules () ((flat (a ...) ...) '(a ... ...)) ((flat . r) 'other)))\n(flat (1 2) (3) ())\n",
+    "(define-syntax def-const (syntax-rules () ((def-const n v) (define n v))))\n(def-const k 5)\n(list k)\n(define (uses a) (def-const local a) (list local k))\n(uses 1)\n",
+    "(define-syntax def-macro (syntax-rules () ((def-macro n v) (define-syntax n (syntax-rules () ((n) v))))))\n(def-macro seven 7)\n(list (seven))\n",
+    "(define-syntax my-begin (syntax-rules () ((my-begin e ...) ((lambda () e ...)))))\n(my-begin (define z 1) (set! z (+ z 1)) z)\n",
+    "(define-syntax my-if (syntax-rules () ((my-if c a b) (cond (c a) (else b)))))\n(my-if #t (my-if #f 1 2) 3)\n",
+    "(define-syntax def-import (syntax-rules () ((def-import l) (import l))))\n(def-import (scheme write))\n(define-syntax q (syntax-rules () ((q x) 'x)))\n(q (a . b))\n",
+    "(define-syntax loop-once (syntax-rules () ((loop-once x) (loop-twice x x)) ((loop-once x y) (list x y))))\n(define-syntax loop-twice (syntax-rules () ((loop-twice x y) (loop-once x y))))\n(loop-once 1)\n",
+];
 
 /// split a source text into tokens and the separators between them (a crude splitter of the
 /// harness's own: parens, quote, strings, comments and atoms)
